@@ -558,7 +558,7 @@ func drawHostile(t *rapid.T) hostileReq {
 			}
 		}
 		h.Field = rapid.SampledFrom(nums).Draw(t, "numField")
-		h.Value = rapid.SampledFrom([]string{"11", "1000", "3000000", "4294967295", "4294967296", "9007199254740992", "9223372036854775807", "9223372036854775808", "18446744073709551615", "0", "1"}).Draw(t, "numValue")
+		h.Value = rapid.SampledFrom([]string{"2", "5", "6", "10", "11", "1000", "3000000", "4294967295", "4294967296", "9007199254740992", "9223372036854775807", "9223372036854775808", "18446744073709551615", "0", "1"}).Draw(t, "numValue")
 	case "contradictory":
 		h.Ep = rapid.SampledFrom([]string{"ocra-gen", "ocra-val"}).Draw(t, "ocraEp")
 		h.Path = postEndpoints[h.Ep]
@@ -600,6 +600,11 @@ func TestC19_Hostile(t *testing.T) {
 				p := restStep{Ep: rapid.SampledFrom([]string{"hotp-gen", "totp-gen", "ocra-gen", "hotp-val", "totp-val", "totp-val", "secret", "secret", "suites"}).Draw(t, "probeEp"), Key: rapid.SliceOfN(rapid.Byte(), 1, 30).Draw(t, "probeKey"), Sp: gen.Spelling{Pad: 1}}
 				p.HasCtr, p.Ctr = true, rapid.Uint64Range(20, 1<<40).Draw(t, "probeCtr")
 				p.HasTS, p.TS = true, int64(rapid.Uint64Range(1, 1<<40).Draw(t, "probeTS"))
+				if (p.Ep == "hotp-val" || p.Ep == "totp-val") && rapid.Bool().Draw(t, "probeWindow") {
+					// every admissible window 0..10: the widest ones are the most work a well-formed request can ask for, and
+					// they must be answered like any other (a worker pool sized for narrow windows wedges on the 13th counter)
+					p.HasSkew, p.Skew = true, uint64(rapid.IntRange(0, 10).Draw(t, "probeSkew"))
+				}
 				p.RawName = "OCRA-1:HOTP-SHA256-8:QN10"
 				p.In.Q = rapid.SliceOfN(rapid.Byte(), 10, 20).Draw(t, "probeQ")
 				if p.Ep == "ocra-gen" && rapid.Bool().Draw(t, "probeStructured") {
